@@ -272,6 +272,16 @@ impl<SE: extensions::ShellExtensions> Shell<SE> {
         self.call_stack.increment_current_line_offset(delta);
     }
 
+    /// Decrements the interactive line offset in the shell by the indicated number
+    /// of lines.
+    ///
+    /// # Arguments
+    ///
+    /// * `delta` - The number of lines to decrement the current line offset by.
+    pub fn decrement_interactive_line_offset(&mut self, delta: usize) {
+        self.call_stack.decrement_current_line_offset(delta);
+    }
+
     /// Updates the currently executing command in the shell.
     pub fn set_current_cmd(&mut self, cmd: &impl brush_parser::ast::Node) {
         self.call_stack
